@@ -28,7 +28,10 @@ def make_summary(rnd, ids, n_images, conv):
              ("Pds", "ProductID", p["id"]), ("Pds", "ResamplingMethod", rnd.choice(["NN", "BL", "CC"])), ("Pds", "UTM_ZoneNo", str(rnd.randint(1, 60))),
              ("Pds", "MapDirection", "MapNorth"), ("Pds", "OrbitDataPrecision", "Precision"), ("Pds", "AttitudeDataPrecision", "Onboard"),
              ("Pds", "PixelSpacing", f"{rnd.uniform(1, 100):.6f}"), ("Pds", "LatLonEllipsoid", "1.5E+02"),
-             ("Img", "SceneCenterDateTime", f"{y:04d}{mo:02d}{d:02d} 03:04:05.678"), ("Img", "SceneStartDateTime", f"{y:04d}{mo:02d}{d:02d} 23:59:59.999"),
+             # scene times: ordinary, the last millisecond of a day, inside a leap second (second 60), with more decimals than three
+             ("Img", "SceneCenterDateTime", rnd.choice([f"{y:04d}{mo:02d}{d:02d} 03:04:05.678", f"{y:04d}{mo:02d}{d:02d} 03:04:05.678912", "20161231 23:59:60.124"])),
+             ("Img", "SceneStartDateTime", f"{y:04d}{mo:02d}{d:02d} 23:59:59.999"),
+             ("Img", "SceneEndDateTime", rnd.choice(["20150630 23:59:60.999", f"{y:04d}{mo:02d}{d:02d} 00:00:00.000", f"{y:04d}{mo:02d}{d:02d} 12:00:00.5"])),
              ("Img", "OffNadirAngle", f"{rnd.uniform(8, 70):.1f}"), ("Img", "ImageSceneLeftTopLatitude", f"{rnd.uniform(-90, 90):.3f}"),
              ("Pdi", "ProductFormat", "CEOS"), ("Pdi", "BitPixel", rnd.choice(["16", "32"])), ("Pdi", "ProductDataSize", f"{rnd.uniform(0.1, 9000):.1f}"),
              ("Pdi", "Comment", rnd.choice(weird)),
@@ -105,6 +108,11 @@ def run_case(case):
     shape_lines = []
     for i, im in enumerate(b.images):
         shape_lines += [("Pdi", f"NoOfPixels_{i}", str(im["p"])), ("Pdi", f"NoOfLines_{i}", str(im["n"]))]
+    extra_shapes = {}
+    if case["seed"] % 3 == 0:  # size entries are keyed by an index, not by position: two-digit and sparse indices are entries like any other
+        for idx in (10, 12, 27):
+            extra_shapes[str(idx)] = (100 + idx, 7 + idx)
+            shape_lines += [("Pdi", f"NoOfPixels_{idx}", str(100 + idx)), ("Pdi", f"NoOfLines_{idx}", str(7 + idx))]
     allines = lines + [("Pdi", f"CntOfL{lv}ProductFileName", str(len(names)))] + file_lines + shape_lines
     # any order within and across sections
     if case["shuffle"] == "full":
@@ -127,6 +135,7 @@ def run_case(case):
         g.update(c)
     roles = {"volume_directory": b.names["vol"], "sar_leader": b.names["led"], "sar_imagery": list(b.names["images"]), "sar_trailer": b.names["trl"]}
     shapes = {str(i): (im["p"], im["n"]) for i, im in enumerate(b.images)}
+    shapes.update(extra_shapes)
     texts = [f'{s}_{k}="{v}"' for s, k, v in allines]
     bad_idx = sorted(rnd.sample(range(len(texts)), case["n_bad"])) if case["n_bad"] else []
     kinds = {}
